@@ -3,7 +3,8 @@
 
      nil            only when the application asked for it (Close, or a QUIT it sent);
      ErrEvent t     only for an ERROR t the peer sent on this connection;
-     I/O error      only when the peer closed its end;
+     I/O error      only when the peer closed its end, or a write of a line other than the
+                    QUIT failed (a failed write of the QUIT itself is ignored: nil);
      parse error    only when the peer sent a line that does not parse;
      ping timeout   only when the ping ticker fired.
 
@@ -20,7 +21,8 @@ Record features := mkFeat {
   f_errors : list str;    (* texts of the ERROR lines the peer sent, in order *)
   f_peer_closed : bool;   (* the peer closed its end *)
   f_bad    : bool;        (* the peer sent an unparsable line *)
-  f_tick   : bool         (* the ping ticker fired with a timeout *)
+  f_tick   : bool;        (* the ping ticker fired with a timeout *)
+  f_wfail  : bool         (* the write of a line other than QUIT failed *)
 }.
 
 Definition allowed (f : features) : list err :=
@@ -28,26 +30,28 @@ Definition allowed (f : features) : list err :=
   ++ map EErrEvent (f_errors f)
   ++ (if f_peer_closed f then [EIO] else [])
   ++ (if f_bad f then [EParse] else [])
-  ++ (if f_tick f then [ETimedOut] else []).
+  ++ (if f_tick f then [ETimedOut] else [])
+  ++ (if f_wfail f then [EIO] else []).
 
 (* one visible label's effect on the features of the current connection *)
 Definition feat_step (l : label) (f : features) : features :=
   match l with
   | LConnCall _ _ =>
       (* a new connection: only a Close() still in flight can take effect on it *)
-      mkFeat (f_inflight f) (f_inflight f) [] false false false
-  | LCloseCall => mkFeat true true (f_errors f) (f_peer_closed f) (f_bad f) (f_tick f)
-  | LCloseRet => mkFeat (f_close f) false (f_errors f) (f_peer_closed f) (f_bad f) (f_tick f)
+      mkFeat (f_inflight f) (f_inflight f) [] false false false false
+  | LCloseCall => mkFeat true true (f_errors f) (f_peer_closed f) (f_bad f) (f_tick f) (f_wfail f)
+  | LCloseRet => mkFeat (f_close f) false (f_errors f) (f_peer_closed f) (f_bad f) (f_tick f) (f_wfail f)
   | LSend o =>
-      if o_quit o then mkFeat true (f_inflight f) (f_errors f) (f_peer_closed f) (f_bad f) (f_tick f) else f
+      if o_quit o then mkFeat true (f_inflight f) (f_errors f) (f_peer_closed f) (f_bad f) (f_tick f) (f_wfail f) else f
   | LPeerSend (LnEv (EvError t)) =>
-      mkFeat (f_close f) (f_inflight f) (f_errors f ++ [t]) (f_peer_closed f) (f_bad f) (f_tick f)
-  | LPeerSend (LnBad _) => mkFeat (f_close f) (f_inflight f) (f_errors f) (f_peer_closed f) true (f_tick f)
-  | LPeerClose => mkFeat (f_close f) (f_inflight f) (f_errors f) true (f_bad f) (f_tick f)
-  | LTick 2 => mkFeat (f_close f) (f_inflight f) (f_errors f) (f_peer_closed f) (f_bad f) true
+      mkFeat (f_close f) (f_inflight f) (f_errors f ++ [t]) (f_peer_closed f) (f_bad f) (f_tick f) (f_wfail f)
+  | LPeerSend (LnBad _) => mkFeat (f_close f) (f_inflight f) (f_errors f) (f_peer_closed f) true (f_tick f) (f_wfail f)
+  | LPeerClose => mkFeat (f_close f) (f_inflight f) (f_errors f) true (f_bad f) (f_tick f) (f_wfail f)
+  | LTick 2 => mkFeat (f_close f) (f_inflight f) (f_errors f) (f_peer_closed f) (f_bad f) true (f_wfail f)
+  | LWFail _ => mkFeat (f_close f) (f_inflight f) (f_errors f) (f_peer_closed f) (f_bad f) (f_tick f) true
   | _ => f
   end.
 
 (* features after a visible trace (left to right) *)
 Definition feat_of (tr : list label) : features :=
-  fold_left (fun f l => feat_step l f) tr (mkFeat false false [] false false false).
+  fold_left (fun f l => feat_step l f) tr (mkFeat false false [] false false false false).
